@@ -252,7 +252,8 @@ static void corpus() {
   }
 }
 
-static Q pick_ml(Rng& g) { static const int64_t v[] = {4, 5, 6, 8, 10}; return Q{v[g.next() % 5], 2}; }
+// miter limits below 2 matter: limits <= 1 always square off, (1,2) limit shorter miters than the default
+static Q pick_ml(Rng& g) { static const int64_t v[] = {2, 4, 5, 6, 7, 8, 8, 10, 12, 16, 20}; return Q{v[g.next() % 11], 4}; }
 static Q pick_arc(Rng& g, double ad) {
   static const int64_t v[] = {0, 1, 2, 4, 8, 20};
   Q a{v[g.next() % 6], 4};
